@@ -213,6 +213,10 @@ Definition close_prog (n : nat) (fails : nat -> bool) : nat -> list act :=
    the head of the thread that owns it.  Every state change goes through `step`, so an
    accepted history is the obs-projection of a trace of the model. *)
 
+(* the observable projection of a trace *)
+Definition obs_of (tr : list event) : list obs :=
+  flat_map (fun e => match snd e with AEv o => [o] | _ => [] end) tr.
+
 Definition silent (a : act) : bool := match a with AEv _ => false | _ => true end.
 
 Definition step_if_silent (c : cfg) (t : nat) : option cfg :=
